@@ -44,7 +44,7 @@ func checkCNF(c CNFCase, o *vf.Obs) error {
 		o.Nontrivial()
 	}
 	if c.Reader == "explain" {
-		pb, err := explain.ParseCNF(strings.NewReader(txt))
+		pb, err := explain.ParseCNF(texts.ReaderFor(txt))
 		if err != nil {
 			return fmt.Errorf("explain.ParseCNF returns an error on a well-formed DIMACS text: %v\n--- text ---\n%s", err, txt)
 		}
@@ -63,7 +63,7 @@ func checkCNF(c CNFCase, o *vf.Obs) error {
 		}
 		return nil
 	}
-	pb, err := solver.ParseCNF(strings.NewReader(txt))
+	pb, err := solver.ParseCNF(texts.ReaderFor(txt))
 	if err != nil {
 		return fmt.Errorf("solver.ParseCNF returns an error on a well-formed DIMACS text: %v\n--- text ---\n%s", err, txt)
 	}
@@ -156,7 +156,7 @@ func checkOPB(c OPBCase, o *vf.Obs) error {
 			}
 		}
 	}
-	pb, err := solver.ParseOPB(strings.NewReader(txt))
+	pb, err := solver.ParseOPB(texts.ReaderFor(txt))
 	if err != nil {
 		return fmt.Errorf("ParseOPB returns an error on a well-formed OPB text: %v\n--- text ---\n%s", err, txt)
 	}
@@ -277,7 +277,7 @@ func checkWCNF(c WCNFCase, o *vf.Obs) error {
 	}
 	solveText := func(cls []texts.WClause) (solver.Result, string, error) {
 		txt := texts.WCNF(c.N, c.Top, cls, c.Layout)
-		s, err := maxsat.ParseWCNF(strings.NewReader(txt))
+		s, err := maxsat.ParseWCNF(texts.ReaderFor(txt))
 		if err != nil {
 			return solver.Result{}, txt, fmt.Errorf("ParseWCNF returns an error on a well-formed WCNF text: %v\n--- text ---\n%s", err, txt)
 		}
